@@ -320,3 +320,67 @@ class Tr:
 def find_stmt(fn, pred):
     """the statements of `fn` (any depth) satisfying pred, in source order"""
     return [n for n in ast.walk(fn) if pred(n)]
+
+
+# ---------------------------------------------------------------------------------------------
+# Skeleton checks that survive harmless refactors: compare statements modulo the names of LOCAL
+# variables (alpha-renaming in order of first binding), docstrings, comments and formatting.
+class _Renamer(ast.NodeTransformer):
+    def __init__(self, mapping):
+        self.mapping = mapping
+
+    def visit_Name(self, node):
+        if node.id in self.mapping:
+            return ast.copy_location(ast.Name(id=self.mapping[node.id], ctx=node.ctx), node)
+        return node
+
+    def visit_arg(self, node):
+        if node.arg in self.mapping:
+            node.arg = self.mapping[node.arg]
+        return node
+
+
+def local_names(fn, keep=()):
+    """names bound inside `fn` (assignment / for / with / comprehension / walrus targets), in order of
+    first binding; parameters and anything in `keep` are NOT renamed (they are part of the interface)"""
+    params = {a.arg for a in fn.args.args + fn.args.kwonlyargs + fn.args.posonlyargs}
+    if fn.args.vararg:
+        params.add(fn.args.vararg.arg)
+    if fn.args.kwarg:
+        params.add(fn.args.kwarg.arg)
+    order = []
+
+    def bind(t):
+        for n in ast.walk(t):
+            if isinstance(n, ast.Name) and n.id not in params and n.id not in keep and n.id not in order:
+                order.append(n.id)
+
+    for n in ast.walk(fn):
+        if isinstance(n, ast.Assign):
+            for t in n.targets:
+                bind(t)
+        elif isinstance(n, (ast.AugAssign, ast.AnnAssign, ast.NamedExpr)):
+            bind(n.target)
+        elif isinstance(n, (ast.For, ast.comprehension)):
+            bind(n.target)
+        elif isinstance(n, ast.With):
+            for it in n.items:
+                if it.optional_vars is not None:
+                    bind(it.optional_vars)
+    return order
+
+
+def normalized_statements(fn, keep=()):
+    """list of `ast.unparse`d top-level statements of `fn`, docstring dropped, local variables renamed
+    to v0, v1, ... in order of first binding - use this instead of raw text for skeleton checks"""
+    import copy
+
+    fn = copy.deepcopy(fn)
+    mapping = {n: f"v{i}" for i, n in enumerate(local_names(fn, keep))}
+    fn = _Renamer(mapping).visit(fn)
+    out = []
+    for st in fn.body:
+        if isinstance(st, ast.Expr) and isinstance(st.value, ast.Constant) and isinstance(st.value.value, str):
+            continue
+        out.append(ast.unparse(st))
+    return out
